@@ -135,7 +135,7 @@ def gen_se(rng, depth, ops, N):
         a = gen_te(rng, depth, ops, N); b = gen_te(rng, max(depth - 1, 0), ops, N)
         return Node(["dot"] + a.toks + b.toks, lambda env, a=a, b=b: torchtt.dot(a.tt_fn(env), b.tt_fn(env)),
                     lambda den, a=a, b=b: (a.dn_fn(den) * b.dn_fn(den)).sum(), None)
-    a = wrap_shape_change(rng, gen_te(rng, depth, ops, N))
+    a = gen_te(rng, depth, ops, N) if ops.get("noshape") else wrap_shape_change(rng, gen_te(rng, depth, ops, N))
     if k == "sumall":
         return Node(["sumall"] + a.toks, lambda env, a=a: a.tt_fn(env).sum(), lambda den, a=a: a.dn_fn(den).sum(), None)
     if k == "normsq":
@@ -160,11 +160,14 @@ def one(cases, lines, metas, rng, tier, ci):
     # programs: operands scaled by a scalar *expression* (x * torchtt.dot(x, y), x.sum() * y, ...) are defined first, the head may use them
     lets = []
     if ci % 3 == 2:
+        # let-programs multiply magnitudes and model cost: shape-preserving sub-expressions only, depth <= 1
+        ops = {"nT": nT, "nM": nM, "noshape": True}
+        depth = 1
         for _ in range(rng.randint(1, 2)):
             i = rng.randrange(ops["nT"])
-            s = gen_se(rng, rng.randint(0, 1), ops, N)
+            s = gen_se(rng, 0, ops, N)
             lets.append((i, s, rng.random() < 0.5))
-            ops = {"nT": ops["nT"] + 1, "nM": nM}
+            ops = {"nT": ops["nT"] + 1, "nM": nM, "noshape": True}
     e0 = gen_se(rng, depth, ops, N)
     if lets:
         newest = ops["nT"] - 1
@@ -190,7 +193,22 @@ def one(cases, lines, metas, rng, tier, ci):
         ltoks += [i] + s.toks
     e = Node(([len(lets)] + ltoks if lets else []) + e0.toks, prog_tt, prog_dn, None)
     alltoks = ltoks + e0.toks
-    usedT = sorted({int(alltoks[i + 1]) for i, t in enumerate(alltoks) if t == "var" and int(alltoks[i + 1]) < nT} | {i for (i, _, _) in lets if i < nT})
+    # operands the head really depends on: variables of the head, and — through every let variable that is reached — the scaled operand
+    # and the variables of its scalar expression
+    def vars_of(toks):
+        return {int(toks[i + 1]) for i, t in enumerate(toks) if t == "var"}
+    reach, todo = set(), list(vars_of(e0.toks))
+    while todo:
+        v = todo.pop()
+        if v in reach:
+            continue
+        reach.add(v)
+        if v >= nT:
+            (li, ls, _) = lets[v - nT]
+            todo += [li] + list(vars_of(ls.toks))
+    usedT = sorted(v for v in reach if v < nT)
+    reached_lets = [lets[v - nT][1].toks for v in reach if v >= nT]
+    alltoks = [t for lt in reached_lets for t in lt] + e0.toks
     usedM = sorted({int(alltoks[i + 1]) for i, t in enumerate(alltoks) if t == "mv"})
     kind = "M" if (usedM and rng.random() < 0.4) else "T"
     oi = rng.choice(usedM if kind == "M" else usedT)
@@ -250,7 +268,10 @@ def one(cases, lines, metas, rng, tier, ci):
         else:
             v2.reshape(()).backward()
             gd = leaf.grad if leaf.grad is not None else tn.zeros_like(leaf)
-        e2 = exact_equal(g, gd)
+        big = max(float(g.abs().max()) if g.numel() else 0.0, float(gd.abs().max()) if gd.numel() else 0.0, abs(float(box["val"]))) >= 2.0 ** 50
+        box["big"] = big
+        # beyond 2^50 the integer arithmetic of the three evaluations is no longer exact in float64: compare to 1e-10 relative there
+        e2 = close(g, gd, 1e-10) if big else exact_equal(g, gd)
         if e2:
             return "gradient differs from the dense derivative: " + e2
         box["nonzero"] = bool((gd != 0).any())
@@ -286,7 +307,13 @@ def run(res, rng, tier, known):
         mt = mo.split()
         mv = Fraction(mt[1]); iv = float(box["val"])
         val_ok = abs(float(mv) - iv) <= 1e-9 * max(1.0, abs(iv))
-        if val_ok and io.split()[2:] == mt[2:]:
+        same = io.split()[2:] == mt[2:]
+        if not same and box.get("big") and io.split()[2:6] == mt[2:6]:
+            gi = [float(Fraction(t.split(",")[0])) for t in io.split()[6:]]
+            gm = [float(Fraction(t.split(",")[0])) for t in mt[6:]]
+            scale = max([abs(v) for v in gm] + [1.0])
+            same = len(gi) == len(gm) and all(abs(a - b) <= 1e-10 * scale for a, b in zip(gi, gm))
+        if val_ok and same:
             res.core_equal += 1
         else:
             res.violation({"property": "C15", "kind": "correspondence", "class": c.cls, "case": line, "impl_outcome": io, "model_outcome": mo,
